@@ -136,8 +136,9 @@ def make_case(rng, i, tier):
     if rng.random() < 0.3:
         # a nonterminal whose only rule has weight ZERO (`CFG.add` drops it: the symbol is then neither in V nor in N) used in
         # the body of a live head: the rule contributes nothing, its name must not be read as a terminal
-        g["rules"].append(["0", "Yz", [rng.choice(gterms)]])
-        g["rules"].append([common.frac_str(rng.choice(gen.SMALL)), rng.choice(["S", "N1"]), ["Yz", rng.choice(gterms)]])
+        tz = rng.choice(gterms)     # the same terminal in both rules: the byte vocabulary is collected from the rules that survive `add`
+        g["rules"].append(["0", "Yz", [tz]])
+        g["rules"].append([common.frac_str(rng.choice(gen.SMALL)), rng.choice(["S", "N1"]), ["Yz", tz]])
     if rng.random() < 0.4:
         # two rules of one head that flatten to the same byte body (multi-character terminal vs its characters)
         gterms = sorted(set(gterms) | {"a", "b", "ab"})
